@@ -63,6 +63,7 @@ type RV struct {
 	Items []RV            `json:"items,omitempty"`
 	Rules []Rule          `json:"rules,omitempty"`
 	V     *Value          `json:"v,omitempty"`
+	Note  string          `json:"note,omitempty"` // list items only: the inline comment after the item (forces a multi-line annotation)
 }
 
 type Rule struct {
@@ -342,14 +343,30 @@ func (r *renderer) rulesText(rules []Rule) string {
 			v = r.rulesText(ru.V.Rules)
 		} else if ru.V.T == "list" {
 			items := make([]string, len(ru.V.Items))
+			noted := false
 			for j, it := range ru.V.Items {
 				if it.T == "set" {
 					items[j] = r.rulesText(it.Rules)
 				} else {
 					items[j] = it.text()
 				}
+				noted = noted || it.Note != ""
 			}
 			v = "[" + strings.Join(items, ", ") + "]"
+			if noted { // one item per line, each followed by its comment
+				v = "[" + r.l.NL
+				for j, it := range ru.V.Items {
+					v += "    " + items[j]
+					if j+1 < len(items) {
+						v += ","
+					}
+					if it.Note != "" {
+						v += " // " + it.Note
+					}
+					v += r.l.NL
+				}
+				v += "  ]"
+			}
 		}
 		parts[i] = name + ": " + v
 	}
@@ -385,7 +402,11 @@ func (r *renderer) annotation(n Node) string {
 	}
 	s := ""
 	if body != "" {
-		switch r.l.Ann {
+		ann := r.l.Ann
+		if hasItemNotes(n.Rules) && ann != "spread" {
+			ann = "block" // comments after list items need an annotation that may span lines
+		}
+		switch ann {
 		case "block":
 			s = " /* " + body + " */"
 		case "spread":
@@ -398,6 +419,19 @@ func (r *renderer) annotation(n Node) string {
 		s += " # trailing comment"
 	}
 	return s
+}
+
+func hasItemNotes(rules []Rule) bool {
+	for _, ru := range rules {
+		if ru.V.T == "list" {
+			for _, it := range ru.V.Items {
+				if it.Note != "" {
+					return true
+				}
+			}
+		}
+	}
+	return false
 }
 
 func (r *renderer) head(n Node) string { // first token of a node
